@@ -35,7 +35,8 @@ Definition exempt : list (string * exclass) := [
   ("walltime_last_step", ExWalltime);
   ("walltime_last_steps_sum", ExWalltime);
   ("walltime_last_steps_N", ExWalltime);
-  ("collisions", ExScratch);                  (* collision list of the current step *)
+  ("collisions", ExScratch);
+  ("N_allocated_collisions", ExAlloc);       (* capacity of the collision list; TRACE read it as a flag until /repo commit 621058f *)                  (* collision list of the current step *)
   ("simulationarchive_filename", ExHandle);   (* documented: call save_to_file again to keep appending *)
   ("ri_whfast.p_temp", ExScratch);
   ("ri_whfast.N_allocated_tmp", ExAlloc);
@@ -94,12 +95,8 @@ Definition exempt : list (string * exclass) := [
   ("extras", ExCallback)
 ].
 
-(* Members that ARE cross-step state read by the integrators, are NOT persisted and are NOT legitimately exempt:
-   each one is a recorded open finding (known_findings.json); the full-strength completeness theorem is refuted
-   by them.  History: ri_mercurius.recalculate_r_crit_this_timestep was one until /repo commit 9e6f362 (descriptor 171).
-   N_allocated_collisions: an allocation counter by name, but integrator_trace.c reads it as a "a collision has
-   happened" flag (if (r->N_allocated_collisions) force_accept = 1), so losing it changes TRACE's step acceptance
-   (finding continue:trace:N_allocated_collisions, reproduced on the library). *)
-Definition known_gaps : list string := [
-  "N_allocated_collisions"
-].
+(* Members that ARE cross-step state read by the integrators, are NOT persisted and are NOT legitimately exempt: each one
+   must be a recorded open finding (known_findings.json).  Currently none.  History:
+   ri_mercurius.recalculate_r_crit_this_timestep until /repo commit 9e6f362 (now descriptor 171);
+   N_allocated_collisions (read by TRACE as a "collision happened" flag) until /repo commit 621058f. *)
+Definition known_gaps : list string := [].
